@@ -81,8 +81,10 @@ MEM = re.compile(rf"^({_HEX})?\(({_REG})?(?:,({_REG}),([1248]))?\)$")
 TARGET = re.compile(r"^(?:0x)?[0-9a-f]+$")
 
 
-def normal_form(op):
-    """C09 normal form of one AT&T operand, or None if the operand is outside the forms the statement lists (UNSPEC)."""
+def normal_form(op, pseudo_index=False):
+    """C09 normal form of one AT&T operand, or None if the operand is outside the forms the statement lists (UNSPEC).
+    pseudo_index: also accept %riz / %eiz in index position (what objdump prints for a SIB byte without index register);
+    C06 needs it - such an operand has an index and a scale component - C09's list of forms names general-purpose registers only."""
     m = IMM.match(op)
     if m:
         return m.group(1)
@@ -93,7 +95,7 @@ def normal_form(op):
         k, a, b, c = m.groups()
         if a is not None and a[1:] not in GPRS:
             return None
-        if b is not None and b[1:] not in GPRS:
+        if b is not None and b[1:] not in GPRS and not (pseudo_index and b in ("%riz", "%eiz")):
             return None
         if a is None and b is None:
             return None
